@@ -36,10 +36,18 @@ var cols = []string{"a", "b", "c"}
 var numLits = []string{"0", "1", "5", "-1", "-5", "2.5", "-2.5", "0.1", "100", "3", "9007199254740992", "9007199254740993", "-9007199254740993", "9223372036854775807", "1.0", "255", "256", "4294967295", "0.30000000000000004"}
 var strLits = []string{"'a'", "'b'", "''", "'5'", "'A'", "'ab'", "'a b'", "'true'", "'é'"}
 
+// literals whose text and value differ for the general engine (escapes), or that contain the characters the
+// shortcut splitters look for
+var escLits = []string{`'a\\b'`, `'a\nb'`, `'a\tb'`, `'\\'`, `'a"b'`, `'a && b'`, `'a || b'`, `' a'`, `'a '`, `'\u0061'`, `'\x61'`, `'a\\'`, `'(a)'`, `'a == 1'`, `'a\b'`, `'\q'`}
+var escVals = []string{`a\\b`, `a\b`, `a\nb`, "a\nb", `a\tb`, "a\tb", `\`, `\\`, `a"b`, "a && b", "a || b", " a", "a ", `\u0061`, `\x61`, `a\`, `a\\`, "(a)", "a == 1", "a\bb", "a", `\q`, "q"}
+
 func genCmp(t *rapid.T) Cmp {
 	c := Cmp{Col: rapid.SampledFrom(cols).Draw(t, "col"), Op: rapid.SampledFrom(ops).Draw(t, "op")}
 	if rapid.IntRange(0, 3).Draw(t, "litkind") == 0 {
 		c.Lit = rapid.SampledFrom(strLits).Draw(t, "slit")
+		if rapid.IntRange(0, 2).Draw(t, "esc") == 0 {
+			c.Lit = rapid.SampledFrom(escLits).Draw(t, "elit")
+		}
 	} else {
 		lits := numLits
 		if pbt.Open("C12", "beyond-2^53") {
@@ -113,6 +121,9 @@ func genVal(t *rapid.T, near []float64) gen.Val {
 		}
 		return gen.Val{K: "uint64", U: rapid.SampledFrom([]uint64{1<<53 + 1, math.MaxUint64, 1 << 63, 1<<63 + 1}).Draw(t, "bigu")}
 	case 22:
+		if rapid.IntRange(0, 2).Draw(t, "escv") == 0 {
+			return gen.Str(rapid.SampledFrom(escVals).Draw(t, "estr"))
+		}
 		return gen.Str(rapid.SampledFrom([]string{"5", "-1", "2.5", "abc", "", "a", "b", "A", "ab", "true", "é", "a b"}).Draw(t, "str"))
 	case 23:
 		return gen.Bool(rapid.Bool().Draw(t, "bool"))
